@@ -103,7 +103,14 @@ def Node.replicateChange (n : Node) (db : Bytes) (c : Change) : Node × List Ev 
 
 def conflictKey (c : Change) : Bytes := Gen.conflictsKey ++ [95] ++ c.key ++ [95] ++ Bytes.ofNat c.opId
 
-def Db.listConflictKeys (db : Db) (k : Bytes) : List Bytes := db.listKeys (Gen.conflictsKey ++ [95] ++ k) true
+/-- `list_conflicts_keys`: all `$conflicts_*` keys, or those of exactly this key
+(`$conflicts_<key>_<digits>`) -/
+def Db.listConflictKeys (db : Db) (k : Bytes) : List Bytes :=
+  let all := db.listKeys (Gen.conflictsKey ++ [95, 42]) true
+  if k = [] then all
+  else
+    let pre := Gen.conflictsKey ++ [95] ++ k ++ [95]
+    all.filter fun ck => Bytes.startsWith ck pre && (ck.drop pre.length).all Bytes.isDigit
 
 def Db.arbiterPushes (db : Db) (msg : Bytes) : List Ev :=
   match AL.get? db.watchers Gen.conflictsKey with
@@ -111,6 +118,17 @@ def Db.arbiterPushes (db : Db) (msg : Bytes) : List Ev :=
   | none => []
 
 def Db.hasArbiter (db : Db) : Bool := AL.contains db.watchers Gen.conflictsKey
+
+/-- the conflict notice `resolve <op> <db> <version> <key> <old value | previous conflict key> <new value>` -/
+def noticeText (dbName : Bytes) (change : Change) (key : Bytes) (old : Entry) (oldVersion version : Int) (pend : List Bytes) : Bytes :=
+  let (oldOrKey, changeVersion) : Bytes × Int :=
+    if oldVersion = inConflict then
+      match pend.getLast? with
+      | some last => (last, vadd version pend.length)
+      | none => (old.value, oldVersion)
+    else (old.value, oldVersion)
+  Gen.resolvePrefix ++ [32] ++ Bytes.ofNat change.opId ++ [32] ++ dbName ++ [32]
+    ++ Bytes.ofInt changeVersion ++ [32] ++ key ++ [32] ++ oldOrKey ++ [32] ++ change.value
 
 def SetResp.toResp : SetResp → Resp
   | .set k v => .set k v
@@ -134,15 +152,7 @@ def Node.applyChange (n : Node) (db : Db) (c : Change) : Node × Db × Resp × L
       else if !db.hasArbiter then (n, db, .error b!"An conflitct happend and there is no arbiter client not connected", [])
       else
         let db1 := db.setValueVersion change.key old.value inConflict state old.vaddr old.kaddr old.opId
-        let pend := db1.listConflictKeys change.key
-        let (oldOrKey, changeVersion) : Bytes × Int :=
-          if oldVersion = inConflict then
-            match pend.getLast? with
-            | some last => (last, vadd version pend.length)
-            | none => (old.value, oldVersion)
-          else (old.value, oldVersion)
-        let msg := Gen.resolvePrefix ++ [32] ++ Bytes.ofNat change.opId ++ [32] ++ db.name ++ [32]
-          ++ Bytes.ofInt changeVersion ++ [32] ++ key ++ [32] ++ oldOrKey ++ [32] ++ change.value
+        let msg := noticeText db.name change key old oldVersion version (db1.listConflictKeys change.key)
         let evA := db1.arbiterPushes msg
         let ck := conflictKey change
         let (n, id) := n.tick
@@ -266,6 +276,13 @@ def Node.snapshotByName (n : Node) (name : Bytes) (reclaim : Bool) : Node × Opt
   if (n.db? name).isSome then ({ n with toSnapshot := n.toSnapshot ++ [(name, reclaim)] }, none)
   else (n, some (b!"Error trying to snapshot database: Database " ++ name ++ b!" not found"))
 
+/-- `has_pendding_conflict`: some conflict of exactly this key is not yet marked `resolved …` -/
+def Db.hasUnresolved (db : Db) (key : Bytes) : Bool :=
+  (db.listConflictKeys key).any fun k =>
+    match db.getValue k with
+    | some e => !Bytes.startsWith e.value Gen.resolvedPrefix
+    | none => false
+
 /-- `resolve_conflit` -/
 def Node.resolveConflict (n : Node) (db : Db) (c : Change) : Node × Db × Resp × List Ev :=
   let (n, id) := n.tick
@@ -273,10 +290,7 @@ def Node.resolveConflict (n : Node) (db : Db) (c : Change) : Node × Db × Resp 
   match db.setValue reg with
   | (db1, _, ps1) =>
     let (n, evR) := n.replicateChange db.name reg
-    let pendingLeft := (db1.listConflictKeys c.key).any fun k =>
-      match db1.getValue k with
-      | some e => !Bytes.startsWith e.value Gen.resolvedPrefix
-      | none => false
+    let pendingLeft := db1.hasUnresolved c.key
     let c' : Change := if pendingLeft then { c with resolve := true, version := inConflict } else { c with resolve := true }
     match db1.setValue c' with
     | (db2, r, ps2) => (n, db2, r.toResp, pushes ps1 ++ evR ++ pushes ps2)
